@@ -51,7 +51,9 @@ TvInit == [absq |-> <<{}>>,        \* memo of the abstract index: absq[k+1] = Ab
            pgrab |-> <<>>,        \* entries of the root grabbed by the persister
            mwake |-> <<>>,        \* entries of the root read by the merger at wake-up
            mtask |-> <<>>,        \* new segment id -> [old, mem] of the merge in flight
-           ploaded |-> {}]        \* segment files written by the persister since its grab
+           ploaded |-> {},        \* segment files written by the persister since its grab
+           fcall |-> <<>>,        \* free-running reader -> batches that had returned when Writer.Reader() was called
+           fobs |-> <<>>]         \* free-running reader -> observation right after it was obtained
 
 TraceInit == Init /\ l = 1 /\ viol = {} /\ tv = TvInit
 
@@ -116,7 +118,7 @@ StateClauses == Failing(GAll)
 Step(name) == l <= N /\ Ev.ev = name /\ l' = l + 1
 \* which groups an event can affect (anything not listed: all of them)
 GroupOf(e) ==
-  CASE e \in {"Invoke", "RootObs", "ReaderObs", "PResult", "Reopened", "Stuck", "SecondOpen", "Recovered"} -> {}
+  CASE e \in {"Invoke", "RootObs", "ReaderObs", "FReaderOpen", "FReaderObs", "PResult", "Reopened", "Stuck", "SecondOpen", "Recovered"} -> {}
     [] e \in {"Return", "Callback"} -> GAck
     [] e \in {"PersistBegin", "PersistEnd", "Commit"} -> GDisk
     [] e \in {"LoadEnd", "HandleClose", "ReaderOpen"} -> GHandle
@@ -159,7 +161,7 @@ KeepAllBut(changed) == TRUE \* documentation only
 
 \* events that carry no state for the property clauses
 Ignored == {"ListEnd", "ReaderClosed", "CleanupBegin", "CleanupEnd", "PProgress", "MProgress", "CloseStart",
-            "Image", "Sched", "Lock"}
+            "Image", "Sched", "Lock", "FReaderClose"}
 TSkip ==
   /\ l <= N /\ Ev.ev \in Ignored /\ l' = l + 1
   /\ UNCHANGED <<vars, viol, tv>>
@@ -376,6 +378,11 @@ TRemoveEnd ==
                      \cup (IF Needed(Ev.id) THEN {"C11_removed_needed_segment"} ELSE {}))
 
 \* ---- readers ---------------------------------------------------------------
+\* the dictionary of the identifier field lists every live id (it may also list ids whose documents are
+\* only marked deleted, and its per-term counts are physical: after a merge the bundled segment format
+\* reports 1 for an id that two live documents carry -- neither is promised by a listed property)
+DictOK(o, abs) == o.err # "" \/ ~Has(o, "dict") \/
+   \A id \in {d[1] : d \in abs} : \E i \in 1..Len(o.dict) : o.dict[i].t = id
 ObsOK(o) == o.err = "" /\ o.count = Len(o.docs) /\ DocSet(o.docs) = DocSet(o.byid)
                       /\ DocSet(o.sorted) = DocSet(o.docs) /\ Len(o.sorted) = Len(o.docs)
 TReaderOpen ==
@@ -385,7 +392,8 @@ TReaderOpen ==
   /\ UNCHANGED <<root, fsnp, fseg, pol, inst, life, cnt>> /\ UNCHANGED Ghosts /\ UNCHANGED Unused
   /\ Judge((IF DocSet(Ev.obs.docs) # AbsPrefix(Len(applied)) \/ Cardinality(AbsPrefix(Len(applied))) # Ev.obs.count
             THEN {"C01_reader_differs_from_abstract_index"} ELSE {})
-           \cup (IF ~ObsOK(Ev.obs) THEN {"C01_reader_views_disagree"} ELSE {}))
+           \cup (IF ~ObsOK(Ev.obs) THEN {"C01_reader_views_disagree"} ELSE {})
+           \cup (IF ~DictOK(Ev.obs, AbsPrefix(Len(applied))) THEN {"C01_dictionary_misses_live_document"} ELSE {}))
 
 \* a fresh reader obtained by the controller right after a root replacement
 TRootObs ==
@@ -393,7 +401,8 @@ TRootObs ==
   /\ UNCHANGED <<root, fsnp, fseg, pol, inst, rd, life, cnt, tv>> /\ UNCHANGED Ghosts /\ UNCHANGED Unused
   /\ Judge((IF DocSet(Ev.obs.docs) # AbsPrefix(Len(applied)) \/ Cardinality(AbsPrefix(Len(applied))) # Ev.obs.count
             THEN {"C01_reader_differs_from_abstract_index"} ELSE {})
-           \cup (IF ~ObsOK(Ev.obs) THEN {"C01_reader_views_disagree"} ELSE {}))
+           \cup (IF ~ObsOK(Ev.obs) THEN {"C01_reader_views_disagree"} ELSE {})
+           \cup (IF ~DictOK(Ev.obs, AbsPrefix(Len(applied))) THEN {"C01_dictionary_misses_live_document"} ELSE {}))
 
 TReaderObs ==
   /\ Step("ReaderObs")
@@ -405,6 +414,37 @@ TReaderClose ==
   /\ rd' = [rd EXCEPT ![Ev.r] = RdInit]
   /\ viol' = viol
   /\ UNCHANGED <<root, fsnp, fseg, pol, inst, life, cnt, tv>> /\ UNCHANGED Ghosts /\ UNCHANGED Unused
+
+\* ---- readers of free-running executions (real parallelism, no gates) ----------------
+\* The reader goroutine logs FReaderCall, calls Writer.Reader(), observes, logs FReaderOpen.  The
+\* root it got was installed (and its IntroBatch logged, under rootLock) before it could be read,
+\* so its content must be the abstract index after k batches with
+\*   (batches that had returned before the call) <= k <= (batches introduced when FReaderOpen is logged).
+\* Then several goroutines search the SAME reader concurrently (FReaderObs): identical answers.
+TFReaderCall ==
+  /\ Step("FReaderCall")
+  /\ tv' = [tv EXCEPT !.fcall = Put(@, Ev.r, tv.returned)]
+  /\ viol' = viol
+  /\ UNCHANGED <<root, fsnp, fseg, pol, inst, rd, life, cnt>> /\ UNCHANGED Ghosts /\ UNCHANGED Unused
+
+TFReaderOpen ==
+  /\ Step("FReaderOpen")
+  /\ tv' = [tv EXCEPT !.fobs = Put(@, Ev.r, Ev.obs)]
+  /\ UNCHANGED <<root, fsnp, fseg, pol, inst, rd, life, cnt>> /\ UNCHANGED Ghosts /\ UNCHANGED Unused
+  /\ LET before == {PosOf(u) : u \in {x \in tv.fcall[Ev.r] : IsApplied(x)}}
+         lo == IF before = {} THEN 0 ELSE Max(before)
+     IN Judge((IF Ev.obs.err # "" THEN {"C15_concurrent_reader_failed"} ELSE {})
+              \cup (IF Ev.obs.err = "" /\ ~\E k \in 0..Len(applied) : DocSet(Ev.obs.docs) = AbsPrefix(k)
+                    THEN {"C05_reader_not_a_prefix"} ELSE {})
+              \cup (IF Ev.obs.err = "" /\ (\E k \in 0..Len(applied) : DocSet(Ev.obs.docs) = AbsPrefix(k))
+                       /\ ~\E k \in lo..Len(applied) : DocSet(Ev.obs.docs) = AbsPrefix(k)
+                    THEN {"C05_reader_misses_returned_batch"} ELSE {})
+              \cup (IF ~ObsOK(Ev.obs) THEN {"C01_reader_views_disagree"} ELSE {}))
+
+TFReaderObs ==
+  /\ Step("FReaderObs")
+  /\ UNCHANGED <<root, fsnp, fseg, pol, inst, rd, life, cnt, tv>> /\ UNCHANGED Ghosts /\ UNCHANGED Unused
+  /\ Judge(IF Ev.obs # tv.fobs[Ev.r] THEN {"C04_reader_changed", "C15_concurrent_searches_disagree"} ELSE {})
 
 \* ---- faults, close, second writer -----------------------------------------------
 TAsyncError ==
@@ -457,7 +497,12 @@ TReopened ==
            \cup (IF Ev.err = "" /\ ~tv.mem /\
                     ~\E k \in 0..Len(applied) : DocSet(Ev.docs) = AbsPrefix(k) /\ k >= AckMax
                  THEN {"C15_reopen_lost_acked"} ELSE {})
-           \cup (IF LostAck THEN {"C15_reopen_lost_acked"} ELSE {}))
+           \cup (IF LostAck THEN {"C15_reopen_lost_acked"} ELSE {})
+           \* the reopened index through the public API: a prefix of the history, all views agreeing
+           \* (global document numbers are rebuilt from the snapshot file at open)
+           \cup (IF Ev.err = "" /\ ~tv.mem /\ ~\E k \in 0..Len(applied) : DocSet(Ev.docs) = AbsPrefix(k)
+                 THEN {"C01_reopened_index_not_a_prefix"} ELSE {})
+           \cup (IF Ev.err = "" /\ Has(Ev, "obs") /\ ~ObsOK(Ev.obs) THEN {"C01_reopened_views_disagree"} ELSE {}))
 
 TStuck ==
   /\ Step("Stuck")
@@ -497,6 +542,7 @@ TraceNext ==
   \/ TReset0 \/ TReset \/ TSkip \/ TPrepared \/ TPGrab \/ TMWake \/ TMergeTask \/ TOpenReturn \/ TOpenCall \/ TInvoke \/ TIntroBatch \/ TIntroMerge \/ TIntroPersist
   \/ TRootLoad \/ TRootNil \/ TReturn \/ TCallback \/ TPersistBegin \/ TPersistEnd \/ TLoadEnd \/ THandleClose
   \/ TCommit \/ TRemoveEnd \/ TReaderOpen \/ TRootObs \/ TReaderObs \/ TReaderClose \/ TAsyncError \/ TPResult
+  \/ TFReaderCall \/ TFReaderOpen \/ TFReaderObs
   \/ TCloseCall \/ TUnlock \/ TCloseReturn \/ TReopened \/ TStuck \/ TSecondOpen \/ TRecovered \/ TCrash
 
 TraceSpec == TraceInit /\ [][TraceNext]_tvars
